@@ -377,7 +377,8 @@ func holderValues(c *driverCtx) []reflect.Value {
 	hr := HRatio{F: 0.25, P: &pr, L: lr, M: map[string]CRatio{"a": 1.5}, O: 2, D: 0.5, G: []float64{1, 2, 3, 4, 5, 6, 7, 8, 9, 10, 11, 12, 13, 14, 15, 16, 17}}
 	ps := CSuit(2)
 	hs := HSuit{F: 3, P: &ps, L: []CSuit{0, 1, 2, 3}, M: map[string]CSuit{"a": 1}, Z: 4}
-	vals := []any{he, he2, hc, hc2, ht, hn, hp, HPoint{}, ho, HObjID{}, hop, hop2, hr, HRatio{}, hs, HSuit{}}
+	// (CPoint itself as the row type: a registration governs its type at the top level too)
+	vals := []any{he, he2, hc, hc2, ht, hn, hp, HPoint{}, ho, HObjID{}, hop, hop2, hr, HRatio{}, hs, HSuit{}, CPoint{3, -4}}
 	out := make([]reflect.Value, len(vals))
 	for i, v := range vals {
 		p := reflect.New(reflect.TypeOf(v))
@@ -476,6 +477,11 @@ func driveC20(c *driverCtx) error {
 	registerSchema("CRatio", `{"type":"double","logicalType":"percent"}`)
 	register("CSuit")
 	registerSchema("CSuit", `{"type":"enum","name":"Suit","symbols":["SPADES","HEARTS","DIAMONDS","CLUBS"]}`)
+	// a builder registered for a POINTER type is a registration for that type and no other: it says nothing about
+	// the type pointed to (CPointTwin and CEmailTwin stay unregistered; the builder is not in rs, so any call of its
+	// codec shows up as a codec that should not have run)
+	avro.Register(reflect.TypeOf((*CPointTwin)(nil)), mkBuilder(9001, "PtrTwin"))
+	avro.Register(reflect.TypeOf((*CEmailTwin)(nil)), mkBuilder(9002, "PtrTwin"))
 	useAll(c, rs, "1-registered")
 	// step 2: re-register codecs (the most recent builder wins)
 	register("CEmail")
@@ -485,13 +491,16 @@ func driveC20(c *driverCtx) error {
 	registerSchema("CCelsius", `["null","double"]`)
 	register("CTags")
 	useAll(c, rs, "3-reregistered-schema")
+	// ... and with null second: the registered schema is emitted as registered
+	registerSchema("CCelsius", `["double","null"]`)
+	useAll(c, rs, "3b-null-second-schema")
 	// step 4: interleaved further registrations in a seeded order
 	names := []string{"CEmail", "CCelsius", "CTags", "CPoint", "CObjID", "COpt", "CRatio", "CSuit"}
 	for k := 0; k < c.pick(3, 80); k++ {
 		n := names[c.rng.Intn(len(names))]
 		register(n)
 		if c.rng.Intn(2) == 0 && n == "CCelsius" {
-			registerSchema(n, []string{`"double"`, `["null","double"]`}[c.rng.Intn(2)])
+			registerSchema(n, []string{`"double"`, `["null","double"]`, `["double","null"]`}[c.rng.Intn(3)])
 		}
 		useAll(c, rs, fmt.Sprintf("4-random-%d", k))
 	}
